@@ -145,17 +145,19 @@ func (sm *stateMachine) executeAction(t *T) bool {
 }
 
 func runAction(t *T, action func(*T)) (invalid bool, skipped bool) {
-	defer func(draws int) {
+	defer func(begun int) {
 		if r := recover(); r != nil {
 			if _, ok := r.(invalidData); ok {
 				t.failOnError() // a rejected action is pruned from the recorded test case: its failure can not wait
 				invalid = true
-				skipped = t.draws == draws
+				// An action abandoned inside its first draw (a generator that gave up) has consumed data:
+				// it is not a skipped action that can be tried again in place, the whole step is rejected.
+				skipped = t.drawsBegun == begun
 			} else {
 				panic(r)
 			}
 		}
-	}(t.draws)
+	}(t.drawsBegun)
 
 	action(t)
 	t.failOnError()
